@@ -114,3 +114,26 @@ Definition export_bytes (data : list (list A)) (n : Z) (chunks : list iv) (spike
       end
   end.
 End ExportBytes.
+
+(* ---------------- a concrete byte layout ---------------- *)
+(* Used by the Examples of Props.v (the premises of the byte-level theorems are satisfiable) and by the
+   comparator (Corr.v, 'npy' cases: the outcome of np.load -- fails / loads, shape, the elements when every chunk
+   has the declared dtype -- does not depend on the layout, by C03_npy_writer).  itemsize 2/4/8; an element =
+   its value followed by zero bytes; the header = number of dimensions, the dimensions, a dtype code. *)
+Definition lay_isz (d : dtype) : Z := match d with I16 => 2 | F32 => 4 | F64 => 8 end.
+Definition lay_tob (d : dtype) (a : Z) : list Z := a :: repeat 0 (Z.to_nat (lay_isz d - 1)).
+Definition lay_fromb (d : dtype) (b : list Z) : option Z := hd_error b.
+Definition lay_code (d : dtype) : Z := match d with I16 => 2 | F32 => 4 | F64 => 8 end.
+Definition lay_hdr (shape : list Z) (d : dtype) : list Z := zlen shape :: shape ++ [lay_code d].
+Definition lay_parse (f : list Z) : option (list Z * dtype * list Z) :=
+  match f with
+  | [] => None
+  | k :: r => match skipn (Z.to_nat k) r with
+              | code :: rest =>
+                  match (if code =? 2 then Some I16 else if code =? 4 then Some F32 else if code =? 8 then Some F64 else None) with
+                  | Some d => Some (firstn (Z.to_nat k) r, d, rest)
+                  | None => None
+                  end
+              | [] => None
+              end
+  end.
